@@ -21,13 +21,22 @@ MANIFEST_TEXT = (
     "points agree, and values and vectors scale exactly with the matrix (ev3_ascending, ev3_trace, "
     "ev3_entry_points_agree, ev3_scaling_exact); 1x1 is exact (ev1_exact).  The row-major/column-major hand-over to "
     "LAPACK is a transposition that is harmless for symmetric input and turns right into left eigenvectors for general "
-    "input (lapack_handover_*).  Each run executes the real routines (float/double/long double, sizes 1..8, closed form "
+    "input (lapack_handover_*).  The caller-owned output containers of the dynamic non-symmetric routine are modelled "
+    "as lists with std::vector::resize semantics and an out-of-bounds outcome: for every content on entry (left over "
+    "from a call with a larger or smaller matrix, pre-sized, vectors of other lengths, empty) a call never writes "
+    "outside them and leaves exactly n values and n vectors of n entries, vector i = column i of LAPACK's result, "
+    "hence right eigenvectors of A (nonsym_dynamic_outputs_fresh, nonsym_dynamic_vectors_right), and so does every "
+    "history of calls on the same containers (nonsym_dynamic_history).  Each run executes the real routines (float/double/long double, sizes 1..8, closed form "
     "and LAPACK, scales 2^-498..2^498) on >= 24k generated matrices; a binary128 oracle decides order, trace, eigenvalue "
     "error, residual, unit norm, orthogonality, agreement of the two entry points and scale equivariance, and power "
     "sums / A v = lambda v for the non-symmetric routines; the same generic Lean model run over IEEE double must "
     "reproduce the eigenvalues and eigenvectors of the C++ double closed-form code (1x1, 2x2, 3x3, all branches; "
     "quantised to 2^-24 of the scale) on every well-separated generated case, and exact cases (2x2 with rational "
-    "square roots, 3x3 diagonal branch, LAPACK hand-over through a recording fake) are compared bit-for-bit.")
+    "square roots, 3x3 diagonal branch, LAPACK hand-over through a recording fake) are compared bit-for-bit.  Output "
+    "arguments are never fresh: the fixed-size routines are entered with NaN-filled and again with junk-filled outputs "
+    "and must answer identically; the dynamic routine runs in histories of 2-5 calls (shrinking, growing, alternating "
+    "orders, with and without vectors, interleaved caller pre-sizing) on one pair of containers, on real LAPACK "
+    "(oracle after every call) and through the recording fake (complete container contents compared with the model).")
 MANIFEST_NOTE = (
     "Partial by nature: floating-point accuracy (residual sizes, orthogonality tolerances) is measured by the harness "
     "on generated inputs, not proved; the Lean theorems are exact-arithmetic statements about the model (sqrt/acos/cos "
@@ -64,7 +73,15 @@ RULE = ("cases: sym = symmetric n x n (n=1..3 closed form, 4..8 LAPACK, and LAPA
         "eigenvectors quantised to 2^-24 of the scale must equal those of the Lean model run over IEEE double; ev2x/ev3x = exact integer/dyadic inputs with power-of-two max norm (Pythagorean discriminants, near-identity around the "
         "64 eps threshold, 3x3 off-diagonals around sqrt(eps)) compared bit-for-bit with the model; hand* = LAPACK hand-over "
         "through a recording fake ?syev/?geev; nsd/nsf = non-symmetric routines on Q T Q^T (real Schur form with and "
-        "without 2x2 rotation blocks), integer triangular matrices and embedded rotations.  Oracle tolerances: eigenvalue "
+        "without 2x2 rotation blocks), integer triangular matrices and embedded rotations; nsq/handnsq = histories "
+        "`T C : seg;seg;..` of 2-5 calls of DynamicMatrixHelp::eigenValuesNonSym on the same eigenvalue vector "
+        "(DynamicVector<complex<T>> or <complex<double>>) and eigenvector list, orders 1..6 shrinking / growing / "
+        "random / alternating / constant, vectors requested in 4 of 5 calls, `pre a [l0,..]` segments where the caller "
+        "sets the eigenvalue vector to a entries and the list to junk-filled vectors of the given lengths (equal, "
+        "ragged, mostly empty); after every call: exactly n values, n vectors of n entries, and the nsd oracle (real "
+        "LAPACK) resp. the complete container contents equal to the model's (fake).  Every sym/ev2x/ev3x case runs the "
+        "routines twice, with NaN-filled and with junk-filled output arguments, and the answers must be identical; "
+        "hand/handnsf/nsf outputs are pre-filled with junk.  Oracle tolerances: eigenvalue "
         "error, residual |A v - lambda v|_2 and entry-point disagreement <= 1024 eps |A|_2 (1x1, 2x2, LAPACK; eps = double "
         "epsilon when LAPACK computes in double for long double input) resp. 32 sqrt(eps) |A|_2 (3x3 closed form); "
         "| |v|^2 - 1 | <= 256 eps; trace within n*1024 eps |A|_2; orthogonality |v_i.v_j| <= tol |A| / |l_i - l_j| for "
@@ -89,6 +106,12 @@ ASSUMPTIONS = [
     "ev3_spectrum (exact roots) excludes by design the nearly diagonal case 0 < p1 <= eps of the scaled matrix, where the "
     "code returns the diagonal as an approximation; ev3_vectors_diag bounds the residual there by sqrt(eps) * max norm",
     "LAPACK (OpenBLAS) is trusted; a recording fake ?syev/?geev is interposed only for the hand-over cases",
+    "output arguments: their content on entry is treated as part of the input (any content for the fixed-size outputs, "
+    "any sizes up to 12 for the dynamic containers); aliasing an output with the input matrix is not exercised; the "
+    "comparison of the NaN-prefilled with the junk-prefilled run assumes that two calls on the same matrix in the same "
+    "process are bitwise reproducible (single-threaded OpenBLAS)",
+    "the container model (vresize / storePrefix / nsVecLoop in Model/C08.lean) is hand-written from dynmatrixev.hh; it is "
+    "tied to the source by the handnsq histories, whose complete container contents must equal the model's",
 ]
 TRUSTED = ["g++/libstdc++, ASan/UBSan, LAPACK/OpenBLAS, libquadmath (__float128) as oracle arithmetic, glibc libm",
            "translator tr_c08.py", "harness/cxx_c08.cc + Driver/C08.lean parsing/printing, Lean's Float (IEEE double)",
